@@ -6,5 +6,6 @@ TMP="$(mktemp -d /tmp/verif-setup.XXXXXX)"
 trap 'rm -rf "$TMP"' EXIT
 "$ROOT/scripts/build.sh" "$TMP"
 "$ROOT/scripts/build.sh" "$TMP/stmt" -stmt leveldb/memdb
+"$ROOT/scripts/build.sh" "$TMP/stmt2" -stmt leveldb/cache
 (cd "$ROOT/engine" && GOFLAGS=-mod=mod GOPROXY=off GOSUMDB=off GOTOOLCHAIN=local go build -race -o "$TMP/racepass" ./cmd/racepass)
 echo setup ok
